@@ -361,6 +361,17 @@ func cmdCheck(args []string) int {
 			fmt.Printf("  %-8s %-7s %6.2fs  %s\n", r.V.Status, r.V.Solver, r.Sec, r.O.Name)
 		}
 	}
+	if *writeBaseline && (len(out.errs) > 0 || len(out.stale) > 0) {
+		// a function that could not be analysed would silently lose its obligations from the baseline
+		for _, e := range out.errs {
+			fmt.Printf("ENGINE-ERROR property=%s %s\n", *prop, e)
+		}
+		for _, e := range out.stale {
+			fmt.Printf("STALE-CONTRACT property=%s %s\n", *prop, e)
+		}
+		fmt.Printf("BASELINE-NOT-WRITTEN property=%s (engine errors or stale contracts in this run)\n", *prop)
+		return 3
+	}
 	if *writeBaseline {
 		var names []string
 		for _, r := range discharged {
